@@ -391,7 +391,7 @@ pub fn run(ctx: &Ctx) -> i32 {
     let fails = run_tapes(ctx, "stripper_random", ctx.tier.pick(200_000, 5_000_000), 160, &stats, random_string_case);
     outcome.absorb(&known, fails);
 
-    let fails = run_tapes(ctx, "programs", ctx.tier.pick(3000, 60_000), 600, &stats, |tape, rec| {
+    let fails = run_tapes_opts(ctx, "programs", ctx.tier.pick(3000, 60_000), 600, 300, &stats, |tape, rec| {
         program_case(ctx, tape, rec)
     });
     outcome.absorb(&known, fails);
